@@ -690,7 +690,13 @@ class eval_abs(object):
         op_size = tab_int_size[types_tab[0]]
 
 
-        ret_value = self.deal_op[e.op](self, args, op_size, cast_int)
+        if e.op in ['+', '*', '^', '&', '|'] and len(args) > 2:
+            # n-ary associative operators: fold over all the operands
+            ret_value = args[0]
+            for a in args[1:]:
+                ret_value = cast_int(self.deal_op[e.op](self, [ret_value, a], op_size, cast_int))
+        else:
+            ret_value = self.deal_op[e.op](self, args, op_size, cast_int)
         if isinstance(ret_value, Expr):
             return ret_value
         return ExprInt(cast_int(ret_value))
